@@ -43,7 +43,7 @@ def reset():
 def round2_demos():
     """Rounds 2 and 3: demo command taken from the DEMO_CMD line of the agent's NOTES.md."""
     d = {}
-    for rnd in (2, 3, 4, 5, 6, 7, 8):
+    for rnd in range(2, 20):
         for pid in ["C01","C02","C03","C04","C06","C08","C09","C12","C14","C15","C16","C20"]:
             for var in "AB":
                 notes = f"/tmp/wt{rnd}-{pid}/seeded/{var}/NOTES.md"
